@@ -112,7 +112,10 @@ def _install_decstr():
     inject = (
         "with NoTracing():\n"
         "        if isinstance(val, _DecStr) and base is _MISSING:\n"
-        "            return val.__dict__['_ch_int']"
+        "            return val.__dict__['_ch_int']\n"
+        "        if isinstance(val, SymbolicFloat) and base is _MISSING and hasattr(type(val), '__int__'):\n"
+        "            with ResumedTracing():\n"
+        "                return val.__int__()"
     )
     src2 = head.replace("def _int(", "def _int_patched(") + inject + body
     bl.__dict__["_DecStr"] = DecStr
